@@ -1,8 +1,8 @@
 (* C18 — property theorems only.  Model: Model.v (text), ModelPath.v (JSONPath operations), ModelBridge.v
    (Go data / Lisp objects / bag data); guards: Spec.v, SpecPath.v; proofs: ProofsLex, ProofsText, ProofsPath,
-   ProofsBridge. *)
+   ProofsBridge, ProofsWalk, ProofsPattern. *)
 From Coq Require Import List ZArith NArith Bool Strings.Byte String.
-From C18 Require Import Tables Model Spec ModelPath ModelBridge SpecPath ProofsLex ProofsText ProofsPath ProofsBridge.
+From C18 Require Import Tables Model Spec ModelPath ModelBridge SpecPath ProofsLex ProofsText ProofsPath ProofsBridge ProofsWalk ProofsPattern.
 Import ListNotations.
 
 (* ---- (1) text ------------------------------------------------------------------------------------
@@ -137,10 +137,100 @@ Theorem C18_walk_pattern_partial : forall p v c, no_desc p = true -> keys_unique
   (In c (get_all p v) <-> exists q, inst q p /\ cget q v = Some c).
 Proof. exact walk_pattern. Qed.
 Print Assumptions C18_walk_pattern_partial.
+(* The same for EVERY pattern that does not end in a descent - descents in the middle, several of them, after
+   wildcards: walk / get-all visit exactly what get returns for the concrete paths q that are instances of the
+   pattern, where a key or index stands for itself, a wildcard for any key or any index, and a descent for any
+   concrete path, the empty one included (dinst).  Without descents dinst is inst (C18_dinst_no_desc), so this
+   contains C18_walk_pattern_partial.  (For a descent AFTER a wildcard get_all is the reference JSONPath semantics,
+   which ojg does not follow - known finding C18-wildcard-descent-get; such paths are not generated, so there the
+   theorem says what walk should visit, not what ojg visits.) *)
+Theorem C18_walk_pattern : forall p v c, ends_desc p = false -> keys_unique v = true ->
+  (In c (get_all_top p v) <-> exists q, dinst q p /\ cget q v = Some c).
+Proof. exact walk_pattern_desc_top. Qed.
+Print Assumptions C18_walk_pattern.
+Theorem C18_dinst_no_desc : forall q p, no_desc p = true -> (dinst q p <-> inst q p).
+Proof. exact dinst_no_desc. Qed.
+Print Assumptions C18_dinst_no_desc.
+(* For a pattern that ends in a descent the statement without the guard is false of ojg: a descent is not started
+   at a scalar, so its zero-length match is missed there - "a.." on {a:1} visits nothing although get of "a"
+   returns 1 (and ".." on a bag holding just 1 does visit the 1).  Known finding C18-walk-descent-at-scalar. *)
+Theorem C18_walk_trailing_descent_refuted :
+  let p := [FKey (Bs "a"); FDesc] in
+  let v := JObj [(Bs "a", JInt 1)] in
+  get_all_top p v = [] /\ dinst [FKey (Bs "a")] p /\ cget [FKey (Bs "a")] v = Some (JInt 1).
+Proof. exact walk_trailing_descent_refuted. Qed.
+Print Assumptions C18_walk_trailing_descent_refuted.
+(* What holds for ALL patterns, trailing descents included: walk / get-all visit exactly what get returns for
+   the instances of the pattern in which every descent starts at a container (vinst follows the instance inside
+   the value: VDesc demands is_container). *)
+Theorem C18_walk_any_pattern : forall p v c, keys_unique v = true ->
+  (In c (get_all p v) <-> exists q, vinst v q p /\ cget q v = Some c).
+Proof. exact walk_any_pattern. Qed.
+Print Assumptions C18_walk_any_pattern.
+
+(* ---- (2b) set, modify and remove through patterns (wildcards) -------------------------------------
+   Setting x through a pattern p of keys, indices and wildcards (bag-set with "*" fragments): when the call
+   succeeds, every concrete instance q of p that existed before reads x afterwards ... *)
+Theorem C18_set_pattern_then_get : forall p x q v v' c0, no_desc p = true -> p <> [] -> mset p x v = SOk v' ->
+  inst q p -> cget q v = Some c0 -> cget q v' = Some x.
+Proof. exact set_pattern_inst. Qed.
+Print Assumptions C18_set_pattern_then_get.
+(* ... and everything the pattern matches in the new tree (created members included) is x. *)
+Theorem C18_set_pattern_all : forall p x v v', no_desc p = true -> p <> [] -> mset p x v = SOk v' ->
+  forall c, In c (get_all p v') -> c = x.
+Proof. exact set_pattern_all. Qed.
+Print Assumptions C18_set_pattern_all.
+(* Frame: every concrete path q that parts ways with the pattern inside v (pdisjoint: p names another key or
+   index than q at a node both reach; a wildcard never parts ways; or q does not exist below a wildcard) reads the
+   same before and after - whether the set succeeded or panicked half way.  On concrete p, pdisjoint is the
+   disjoint of C18_set_frame. *)
+Theorem C18_set_pattern_frame : forall p q x v, no_desc p = true -> concrete q = true -> p <> [] -> pdisjoint p q v = true ->
+  cget q (sres_tree (mset p x v)) = cget q v.
+Proof. exact set_pattern_frame. Qed.
+Print Assumptions C18_set_pattern_frame.
+Theorem C18_pdisjoint_concrete : forall p q v, concrete p = true -> pdisjoint p q v = disjoint p q v.
+Proof. exact pdisjoint_concrete. Qed.
+Print Assumptions C18_pdisjoint_concrete.
+
+(* bag-modify through a pattern of keys, indices and wildcards (modify_at p g is what Expr.Modify does with the
+   function g on bag data): the matches of p afterwards are exactly the old matches, each replaced by g of it; *)
+Theorem C18_modify_matches : forall p g v, no_desc p = true -> get_all p (modify_at p g v) = map g (get_all p v).
+Proof. exact get_all_modify. Qed.
+Print Assumptions C18_modify_matches.
+(* path by path: an instance q of p that reached c reaches g c; *)
+Theorem C18_modify_instance : forall p g q v c, no_desc p = true -> inst q p -> cget q v = Some c ->
+  cget q (modify_at p g v) = Some (g c).
+Proof. exact modify_inst. Qed.
+Print Assumptions C18_modify_instance.
+(* and every concrete path that parts ways with the pattern is unchanged (also the frame of a remove through a
+   wildcard, which modifies the parents: bag_remove (sx ++ [last]) = modify_at sx (remove_last last)). *)
+Theorem C18_modify_frame : forall p g q v, no_desc p = true -> concrete q = true -> pdisjoint p q v = true ->
+  cget q (modify_at p g v) = cget q v.
+Proof. exact modify_frame. Qed.
+Print Assumptions C18_modify_frame.
+(* For EVERY pattern that does not end in a descent (descents in the middle included): a function that gives
+   back what it was given leaves the bag as it was; *)
+Theorem C18_modify_fixed : forall p g v, ends_desc p = false -> (forall c, In c (get_all p v) -> g c = c) -> modify_at p g v = v.
+Proof. exact modify_fixed. Qed.
+Print Assumptions C18_modify_fixed.
+(* in particular (bag-modify b (lambda (x) x) path): each match goes to the function as native Lisp data and comes
+   back through ObjectToBag (repo_fixes C18-4); when every match survives that round trip (native_ok) nothing
+   changes.  Before the fix an object came back as a list of pairs. *)
+Theorem C18_modify_identity : forall p v v', (forall c, In c (get_all p v) -> native_ok c = true) ->
+  bag_modify_fn p MId v = Some v' -> v' = v.
+Proof. exact modify_identity. Qed.
+Print Assumptions C18_modify_identity.
+(* remove through a pattern: after removing the member k, or every member ("*"), of everything sx matches, has of
+   that path is false and get-all finds nothing. *)
+Theorem C18_remove_pattern_then_has : forall sx last v v', no_desc sx = true -> (last = FWild \/ exists k, last = FKey k) ->
+  bag_remove (sx ++ [last]) v = Some v' -> mhas (sx ++ [last]) v' = false /\ get_all (sx ++ [last]) v' = [].
+Proof. exact remove_pattern_has. Qed.
+Print Assumptions C18_remove_pattern_then_has.
 
 (* ---- (3) conversions -----------------------------------------------------------------------------
    A bag converted to native Lisp data (bag-native) and back (make-bag / bag-set) is the same bag, inside the
-   guard native_ok: no false, no json.Number, no empty array or object. *)
+   guard native_ok: no false, no empty array or object, no json.Number that would fit an int64 (an integer beyond
+   int64 is a json.Number in the bag and a bignum in Lisp: repo_fixes C18-1 and C18-3). *)
 Theorem C18_native_roundtrip : forall v, native_ok v = true -> object_to_bag (to_native v) = Some v.
 Proof. exact native_roundtrip. Qed.
 Print Assumptions C18_native_roundtrip.
@@ -151,12 +241,16 @@ Theorem C18_native_empty_refuted :
   object_to_bag (to_native (JArr [JArr []; JObj []])) = Some (JArr [JNull; JNull]) /\ object_to_bag (to_native (JObj [])) = Some JNull.
 Proof. exact native_empty_refuted. Qed.
 Print Assumptions C18_native_empty_refuted.
-Theorem C18_native_big_refuted : object_to_bag (to_native (JArr [JBig 12345678901234567890])) = Some (JArr [JNull]).
-Proof. exact native_big_refuted. Qed.
-Print Assumptions C18_native_big_refuted.
+(* a json.Number that fits an int64 - what ojg's parser makes of the digits 9223372036854775800..807 - comes back
+   as an int64: the same number, but a different bag for bag-compare *)
+Theorem C18_native_edge_number_refuted :
+  object_to_bag (to_native (JArr [JBig 9223372036854775807])) = Some (JArr [JInt 9223372036854775807]).
+Proof. exact native_edge_number_refuted. Qed.
+Print Assumptions C18_native_edge_number_refuted.
 
-(* Plain Go data (nil, true, integers of every width within int64, float64, string, []byte, time, slices)
-   converted with SimpleObject and simplified again is the same data, integers as int64 and []byte as string. *)
+(* Plain Go data (nil, true, integers of every width within int64, json.Number with an integer text within int64,
+   float64, string, []byte, time, slices) converted with SimpleObject and simplified again is the same data,
+   integers as int64 and []byte as string. *)
 Theorem C18_bridge_roundtrip : forall g, plain g = true -> simplify (simple_object g) = norm_gov g.
 Proof. exact bridge_roundtrip. Qed.
 Print Assumptions C18_bridge_roundtrip.
@@ -167,6 +261,11 @@ Theorem C18_bridge_map_refuted :
   simplify (simple_object (GMap [(Bs "a", GInt KInt64 1)])) = GSlice [GSlice [GStr (Bs "a"); GInt KInt64 1]].
 Proof. exact bridge_map_refuted. Qed.
 Print Assumptions C18_bridge_map_refuted.
-Theorem C18_bridge_uint64_refuted : simplify (simple_object (GInt KUint64 9223372036854775808)) = GInt KInt64 (-9223372036854775808).
-Proof. exact bridge_uint64_refuted. Qed.
-Print Assumptions C18_bridge_uint64_refuted.
+(* an integer beyond int64 (uint64, json.Number) becomes a bignum (repo_fixes C18-1, C18-2: no longer nil or a
+   negative fixnum), and Simplify of a bignum is its decimal text: a string comes back *)
+Theorem C18_bridge_bignum_refuted :
+  simple_object (GInt KUint64 9223372036854775808) = LBig 9223372036854775808 /\
+  simplify (simple_object (GInt KUint64 9223372036854775808)) = GStr (Bs "9223372036854775808") /\
+  simplify (simple_object (GNum (Bs "12345678901234567890"))) = GStr (Bs "12345678901234567890").
+Proof. exact bridge_bignum_refuted. Qed.
+Print Assumptions C18_bridge_bignum_refuted.
